@@ -42,7 +42,7 @@ type EmbN2 struct {
 var kinds = []string{"string", "bytes", "secret", "binval", "binptr", "jsonstruct", "jsonint", "float", "untagged", "emptyname", "emptyjson", "embedded"}
 var baseNames = []string{"n1", "n2"}
 var prefixes = []string{"", "p", "p/q"}
-var forms = []string{"obj", "num", "junk", "missing"}
+var forms = []string{"obj", "num", "junk", "missing", "trail"}
 
 type field struct {
 	Kind string `json:"kind"`
@@ -57,6 +57,8 @@ func valueOf(form string, ver int) []byte {
 		return []byte(fmt.Sprintf(`%d`, 70+ver))
 	case "junk":
 		return []byte(fmt.Sprintf("\xff{not json %d", ver))
+	case "trail": // a complete JSON number followed by more data: not one well-formed JSON document
+		return []byte(fmt.Sprintf(`%d {"A":%d}`, 70+ver, 40+ver))
 	}
 	return nil
 }
@@ -477,7 +479,7 @@ func TestFields(t *testing.T) {
 			sh = append(sh, f)
 		}
 		p := prefixes[r.Intn(3)]
-		fm := map[string]string{join(p, "n1"): forms[r.Intn(4)], join(p, "n2"): forms[r.Intn(4)]}
+		fm := map[string]string{join(p, "n1"): forms[r.Intn(len(forms))], join(p, "n2"): forms[r.Intn(len(forms))]}
 		mode := "apply"
 		if fm[join(p, "n1")] != "missing" && fm[join(p, "n2")] != "missing" && r.Intn(2) == 0 {
 			mode = "newstore"
